@@ -46,15 +46,19 @@ func init() {
 			checkC19Model(c, budget(c.Tier, 400, 40000))
 		}}
 	props["C02"] = propRun{
-		rule: "(a) option tokens in all spellings over ASCII / multi-byte / invalid names and arbitrary values through the splitting functions; (b) metamorphic groups: one generated declaration and surrounding argument vector, one occurrence of one option rendered as -xV, -x=V, -x V, --name=V, --name V and quoted forms; (c) random whole-parser cases; distinct per token / group",
+		rule: "(a) option tokens in all spellings over ASCII / multi-byte / invalid names and arbitrary values through the splitting functions; (b) metamorphic groups: one generated declaration and surrounding argument vector, one occurrence of one option rendered as -xV, -x=V, -x V, --name=V, --name V and quoted forms; (c) cluster groups -abc [V] / -a -b -c [V] / -ab -c [V] with non-ASCII flags; (d) random whole-parser cases with 40% non-ASCII names; distinct per token / group",
 		run: func(c *Ctx) {
 			c.N = budget(c.Tier, 3000, 200000)
 			checkC02Split(c)
 			p := defaultProfile
 			p.BadDecl = 0
 			p.Utf = 0.3
-			checkC02Spellings(c, budget(c.Tier, 150, 15000), p)
-			runParseCases(c, budget(c.Tier, 300, 30000), defaultProfile, func(cr *CaseResult) { oracleNoPanic(c, cr) })
+			checkC02Spellings(c, budget(c.Tier, 200, 15000), p)
+			checkC02Clusters(c, budget(c.Tier, 200, 15000), p)
+			pp := defaultProfile
+			pp.Utf = 0.4
+			pp.BadDecl = 0.01
+			runParseCases(c, budget(c.Tier, 1500, 60000), pp, func(cr *CaseResult) { oracleNoPanic(c, cr) })
 		}}
 	props["C11"] = propRun{
 		rule: "(a) all integer kinds x bases 2..36 x texts at and around the type limits with signs, leading zeros, blanks, underscores, junk through convert; (b) whole-parser cases over numeric / float32 / float64 / duration / bool / map / pointer / slice options with values at and beyond the limits (1e39 for float32, 1e400, NaN, inf), choices and unconvertible values; distinct per (kind, base, text) / case",
@@ -290,6 +294,7 @@ func main() {
 		os.Exit(2)
 	}
 	c.LoadKnown(*known)
+	c.Start, c.Out, c.Rule = start, *out, pr.rule
 	ptyOK = probePty()
 	termCols = currentCols()
 	if !ptyOK {
